@@ -657,6 +657,11 @@ def probe_stacks_and_trap(run, d, what):
     rr = d.exec(b'ERROR 97')
     if b'#E|' in rr.out or rr.err != -1:
         run.violate('C23', '%s:error-trap-survives' % what, 'ERROR 97 -> %r (expected an untrapped Unprintable error)' % (rr,))
+    # with no error trap, a floating-point error is reported by message and execution continues
+    rr = d.exec(b'PRINT 1/0:PRINT "#soft"')
+    if b'#soft' not in rr.out:
+        run.violate('C23', '%s:error-trap-survives:float-errors-still-fatal' % what,
+                    'PRINT 1/0:PRINT "#soft" -> %r (expected the Division by zero message, the maximum and #soft)' % (rr,))
 
 
 def judge_reset(run, d, cfg, reset, r0, fre_new, fre_prog, sk, after_failed_chain):
